@@ -1,17 +1,24 @@
-import Sm9.Proofs.GroupBasic
-import Sm9.Proofs.Pow
+import Sm9.Proofs.Sqrt
 import Sm9.Proofs.Consts
 /-!
 # C14 — Square roots are sound and complete in Fq and Fq2
-First landing: sqrt(0) = 0 in both fields; the exponents are (q−1)/4 and (q−5)/8 with
-q ≡ 5 (mod 8); Fq2 roots are verified candidates when the imaginary part is non-zero; the
-imaginary-part-zero case (the D6 repair) is decided inside Fq; the D6 witnesses −4 and 2
-now have roots (kernel evaluation).  Soundness and completeness of the Fq algorithm by
-Euler's criterion is the next item.
+Full strength on the model: for **every** x in Fq and in Fq2, `sqrt x` is `some s` with
+s·s = x exactly when x is a square, `none` otherwise; sqrt 0 = 0; the Fq root returned is
+the smaller of ±s; every element of Fq has a root in Fq2 (the D6 repair).  The consequence
+for compressed decoding rests on these plus C08's decoder model.
 -/
 namespace Sm9.C14
 
-theorem fq_sqrt_zero : (0 : Fq).sqrt = some 0 := by decide +kernel
+theorem fq_sqrt_sound (x s : Fq) (h : x.sqrt = some s) : s * s = x := Fq.sqrt_sound x s h
+theorem fq_sqrt_complete (x : Fq) (h : ∃ c, c * c = x) : x.sqrt.isSome = true := Fq.sqrt_complete x h
+theorem fq_sqrt_none_iff (x : Fq) : x.sqrt = none ↔ ¬ ∃ c, c * c = x := Fq.sqrt_eq_none_iff x
+theorem fq_sqrt_zero : (0 : Fq).sqrt = some 0 := Fq.sqrt_zero
+theorem fq_sqrt_smaller (x s : Fq) (h : x.sqrt = some s) : s.val ≤ (-s).val := Fq.sqrt_smaller x s h
+theorem fq2_sqrt_sound (x s : Fq2) (h : x.sqrt = some s) : s * s = x := Fq2.sqrt_sound x s h
+theorem fq2_sqrt_complete (x : Fq2) (h : ∃ c, c * c = x) : x.sqrt.isSome = true := Fq2.sqrt_complete x h
+theorem fq2_sqrt_none_iff (x : Fq2) : x.sqrt = none ↔ ¬ ∃ c, c * c = x := Fq2.sqrt_eq_none_iff x
+/-- every element of Fq is a square in Fq2 -/
+theorem fq2_sqrt_real (a : Fq) : (Fq2.sqrt { c0 := a, c1 := 0 }).isSome = true := Fq2.sqrt_complete_real a
 theorem fq2_sqrt_zero : Fq2.zero.sqrt = some Fq2.zero := by decide +kernel
 theorem exponents : Fq.minus1_div4 = (Consts.FQ - 1) / 4 ∧ Fq.minus5_div8 = (Consts.FQ - 5) / 8 ∧ Consts.FQ % 8 = 5 :=
   ⟨minus1_div4_eq, minus5_div8_eq, q_mod_8⟩
@@ -20,7 +27,5 @@ theorem d6_witnesses :
     ((Fq2.new (-(Fq.ofNat 4)) 0).sqrt.map fun s => decide (s * s = Fq2.new (-(Fq.ofNat 4)) 0)) = some true ∧
     ((Fq2.new (Fq.ofNat 2) 0).sqrt.map fun s => decide (s * s = Fq2.new (Fq.ofNat 2) 0)) = some true := by
   decide +kernel
-/-- the returned Fq root is the smaller of ±s -/
-theorem fq_sqrt_four : (Fq.ofNat 4).sqrt = some (Fq.ofNat 2) := by decide +kernel
 
 end Sm9.C14
